@@ -64,7 +64,7 @@ GAMS = [gamma.ident(), gamma.ident_int(), gamma.big_int(), gamma.ident_u8(), gam
 
 
 def run_events(src_a, c, ids, cid, beh, script=None, np_seed=None, smooth=False, accumulate=False,
-               src_obj=None, inv=None, G=G):
+               src_obj=None, inv=None, G=G, randint_max=False):
     """One bootstrap_sample call observed through the RNG shim."""
     evs = []
 
@@ -82,7 +82,7 @@ def run_events(src_a, c, ids, cid, beh, script=None, np_seed=None, smooth=False,
              "accumulate": accumulate, "exc": ""}
     if np_seed is not None:
         np.random.seed(np_seed)
-    with rngshim.active(script) as sh:
+    with rngshim.active(script, randint_max) as sh:
         try:
             smp = src.bootstrap_sample(cfg_real(c, smooth))
             if smooth:
@@ -193,8 +193,15 @@ def run(ctx: core.Ctx):
             script = [list(d) if isinstance(d, tuple) else d for d in st["draws"]]
             cid = len(cases)
             cases.append({"kind": "tlc_run", "src": rec_obj(st["src"]), "cfg": c, "draws": script})
-            ev_small += run_events(st["src"], c, ids, cid, cid, script=script, G=GAMS[(cid + ctx.seed) % len(GAMS)])
+            evs_ = run_events(st["src"], c, ids, cid, cid, script=script, G=GAMS[(cid + ctx.seed) % len(GAMS)])
+            ev_small += evs_
             ctx.nontrivial.add(json.dumps(cases[-1], sort_keys=True))
+            if any(e_.get("fn") == "randint" for e_ in evs_):
+                # the same run once more, every randint call answered with the largest value of the range
+                # the implementation actually asked for (a legal RNG outcome of that call)
+                cid = len(cases)
+                cases.append({"kind": "tlc_run", "src": rec_obj(st["src"]), "cfg": c, "draws": script, "randint_max": True})
+                ev_small += run_events(st["src"], c, ids, cid, cid, script=script, randint_max=True)
         # seeded small runs under the lowered switch (code -> spec on the same model)
         rnd = np.random.RandomState(ctx.seed + 5)
         for k in range(300 if ctx.tier == "quick" else 3000):
@@ -300,7 +307,8 @@ def replay(ctx: core.Ctx, body):
     if c["kind"] in ("tlc_run", "seeded_small"):
         set_switch(2)
         try:
-            evs = run_events(c["src"], c["cfg"], ids, 0, 0, script=c.get("draws"), np_seed=c.get("np_seed"))
+            evs = run_events(c["src"], c["cfg"], ids, 0, 0, script=c.get("draws"), np_seed=c.get("np_seed"),
+                             randint_max=c.get("randint_max", False))
         finally:
             set_switch(100)
         ctx.judge("Trace_C11", evs, cases=[c], consts_cfg=JUDGE_CONSTS.format(th=2))
